@@ -713,7 +713,8 @@ VERIF_FAIL_PATTERNS = [
     'loop invariant not satisfied', 'unreachable', 'cannot show invariant', 'failed to prove',
     'possible truncation', 'assert_bitvector', 'bitvector assertion', 'may not terminate',
     'assertion not satisfied', 'constant evaluates to a value outside', 'cannot prove',
-    'recommendation not met',
+    'recommendation not met', 'unable to prove post-condition of closure', 'unable to prove pre-condition of closure',
+    'closure', 
 ]
 LIMIT_PATTERNS = ['Resource limit (rlimit) exceeded', 'rlimit', 'timed out', 'z3 crashed', 'resource limit']
 
